@@ -6,7 +6,7 @@ from .. import core, gen, compare, admit, interlib, exact as E
 from ..gen import Gen, tok
 from ..exact import add, sub, mul, neg, dot, cross
 
-TEMPLATES = ['random', 'translate', 'nested', 'shared-vertex', 'face-pyramid', 'coplanar', 'in-face-plane', 'self', 'cut']
+TEMPLATES = ['random', 'translate', 'nested', 'shared-vertex', 'face-pyramid', 'coplanar', 'in-face-plane', 'self', 'cut', 'lattice-box']
 
 
 def body_desc(G):
@@ -55,6 +55,32 @@ def make_case(G, i):
         k = R.choice([F(1), F(2), F(3)])
         tri = [add(c, mul(k, sub(p, c))) for p in pts]
         A, B = ('G', tri), G.shuffled_body(faces)
+        return (A, B, tpl) if R.random() < 0.5 else (B, A, tpl)
+    if tpl == 'lattice-box':
+        # small axis-aligned integer boxes around the origin (what Parallelepiped users build); every third one is the unit
+        # cube [-2,-1] x [0,1]^2 up to the axis: its opposite faces have vertex coordinates that differ only by -1 <-> -2,
+        # which CPython hashes alike (hash(-1) == hash(-2)) -- D12: the two faces compared equal and one was lost
+        def box(lo, hi):
+            vs = [(F(x), F(y), F(z)) for x in (lo[0], hi[0]) for y in (lo[1], hi[1]) for z in (lo[2], hi[2])]
+            return E.hull_faces(vs)
+        ax = R.randrange(3)
+        if R.random() < 0.34:
+            lo, hi = [0, 0, 0], [1, 1, 1]
+            lo[ax], hi[ax] = -2, -1
+        else:
+            lo = [R.randint(-2, 0) for _ in range(3)]
+            hi = [l + R.randint(1, 2) for l in lo]
+        grow_lo = [R.choice([0, 0, 1, 2]) for _ in range(3)]
+        grow_hi = [R.choice([0, 0, 1, 2]) for _ in range(3)]
+        mode = R.choice(['contains', 'contains', 'self', 'overlap'])
+        if mode == 'self':
+            lo2, hi2 = lo, hi
+        elif mode == 'contains':
+            lo2, hi2 = [l - g for l, g in zip(lo, grow_lo)], [h + g for h, g in zip(hi, grow_hi)]
+        else:
+            sh = [R.choice([-1, 0, 0, 1]) for _ in range(3)]
+            lo2, hi2 = [l + d_ for l, d_ in zip(lo, sh)], [h + d_ for h, d_ in zip(hi, sh)]
+        A, B = G.shuffled_body(box(lo, hi)), G.shuffled_body(box(lo2, hi2))
         return (A, B, tpl) if R.random() < 0.5 else (B, A, tpl)
     # two bodies / polygons
     def one(k):
